@@ -136,7 +136,7 @@ func buildTagFields(rt reflect.Type, out, pretty, embedded, omitEmpty bool) (fa 
 					}
 				}
 			}
-			fa = append(fa, newFinfo(&f, key, omit, asString, pretty, embedded))
+			fa = append(fa, newFinfo(&f, key, omit, omitEmpty, asString, pretty, embedded))
 		}
 	}
 	return
@@ -164,7 +164,7 @@ func buildExactFields(rt reflect.Type, out, pretty, embedded, omitEmpty bool) (f
 				}
 			}
 		} else {
-			fa = append(fa, newFinfo(&f, f.Name, omitEmpty, false, pretty, embedded))
+			fa = append(fa, newFinfo(&f, f.Name, omitEmpty, omitEmpty, false, pretty, embedded))
 		}
 	}
 	return
@@ -199,7 +199,7 @@ func buildLowFields(rt reflect.Type, out, pretty, embedded, omitEmpty bool) (fa 
 			} else {
 				name = bytes.ToLower(name)
 			}
-			fa = append(fa, newFinfo(&f, string(name), omitEmpty, false, pretty, embedded))
+			fa = append(fa, newFinfo(&f, string(name), omitEmpty, omitEmpty, false, pretty, embedded))
 		}
 	}
 	return
